@@ -373,6 +373,37 @@ func TestStockDialer(t *testing.T) {
 			}
 		}
 	}
+	// settings below zero (what they mean is the library's business - the code takes them as "default"): whatever Dial makes of
+	// them, it comes back and leaves nothing running
+	for _, neg := range []string{"MaxConcurrency", "ConcurrencyDelay", "Timeout"} {
+		runs++
+		d := ech.NewDialer()
+		d.Timeout = 300 * time.Millisecond
+		d.ConcurrencyDelay = 20 * time.Millisecond
+		switch neg {
+		case "MaxConcurrency":
+			d.MaxConcurrency = -1
+		case "ConcurrencyDelay":
+			d.ConcurrencyDelay = -1
+		case "Timeout":
+			d.Timeout = -1
+		}
+		ctx, cancel := context.WithTimeout(context.Background(), time.Second)
+		done := make(chan struct{})
+		go func() {
+			defer close(done)
+			if c, err := d.Dial(ctx, "tcp", ln.Addr().String(), &tls.Config{ServerName: "stalled.example", InsecureSkipVerify: true}); err == nil {
+				c.Close()
+			}
+		}()
+		select {
+		case <-done:
+		case <-time.After(watchdogLimit()):
+			noteHang()
+			w.Write(Ev{"key": "negative:" + neg, "diff": "Dial with a negative " + neg + " does not return although its context has ended"})
+		}
+		cancel()
+	}
 	// nothing of the Dialer keeps running (the attempts' goroutines end with their context)
 	deadline := time.Now().Add(watchdogLimit())
 	g := 0
